@@ -953,6 +953,12 @@ def rule_submodule_once(ctx, rep: Report, rid="A4"):
     once = any(("not in self." in g or "notin self." in g) for g in gs) or any("not in self." in g for g in gs)
     rep.add(rid, "submodule:only for namespaces strictly below the top namespace", depth_guard, f"guards {gs}",
             f"{ci.mod.rel}:{site.lineno}")
+    extra = [g for g in gs if g.replace(" ", "") != f"len({_namespaces_local(fn)})>len(self.top_module_namespaces)"
+             and "not in self." not in g]
+    rep.add(rid, "submodule:declared on the first visit of every namespace below the top namespace (no further condition)", not extra,
+            f"the declaration is skipped unless {extra}: the variable is still named as the parent of nested namespaces' "
+            "submodules and as the target of every binding of this namespace, so the generated C++ uses an undeclared "
+            "identifier whenever the extra condition is false", f"{ci.mod.rel}:{site.lineno}")
     rep.add(rid, "submodule:declared once per module variable", once,
             "the dialect allows re-opening a namespace (find_sub_namespace merges same-named namespaces); the "
             "submodule variable is declared on every visit, so `namespace n {..} namespace n {..}` declares "
